@@ -20,7 +20,7 @@ for p in allp:
         "level_claimed": {"category": "other",
                           "text": "Bounded symbolic verification of the real code: " + s.get("level", s["explanation"]) ,
                           "design_ref": s.get("design_ref", "DESIGN.md §5")},
-        "level_note": "Within the stated bounds only (" + "; ".join(s.get("bounds", []))[:600] + "). Trusted: gosmt's SSA interpreter and intrinsics (" + "; ".join(s.get("stubs", []) or ["none beyond the runtime"])[:400] + "), the SMT solver's unsat answers, the integer (Int with explicit wrap) and relaxed floating-point encodings. Outside the claim: " + "; ".join(s.get("outside", []))[:600],
+        "level_note": ("The thorough command runs the quick tier's bounds: the wider bounds written in the harness (marked 'thorough' below) did not finish clean within this session's time budget and are not claimed. " if s.get("thorough_uses_quick_bounds") else "") + "Within the stated bounds only (" + "; ".join(s.get("bounds", []))[:600] + "). Trusted: gosmt's SSA interpreter and intrinsics (" + "; ".join(s.get("stubs", []) or ["none beyond the runtime"])[:400] + "), the SMT solver's unsat answers, the integer (Int with explicit wrap) and relaxed floating-point encodings. Outside the claim: " + "; ".join(s.get("outside", []))[:600],
         "technique": s.get("technique", "SMT-based bounded symbolic execution of the Go SSA of the real functions (own engine gosmt + z3/cvc5); counterexamples replayed natively"),
     })
 na = []
